@@ -5,3 +5,4 @@ import WS.Props.C06
 import WS.Props.C09
 import WS.Props.C10
 import WS.Props.C11
+import WS.Lemmas.Http
